@@ -338,6 +338,16 @@ class Corrupt(Machine):
         data = model["envs"][name]
         specs, exhaustive = self._specs(op, data)
         ex = model["_extra"]
+        # with the command line's DEBUG logging every parse writes hundreds of log records (and a damaged value that
+        # cannot be formatted makes the logging module print a traceback of its own): only the single-node replacement
+        # family is swept under it, as a bounded, evenly spread sample; everything else runs as library use
+        log_here = host.cli_logging and host.fast_stack and op.get("family") in ("replace", "single")
+        if log_here and len(specs) > 60:
+            step = len(specs) / 60.0
+            specs = [specs[int(j * step)] for j in range(60)]
+            exhaustive = False
+        if log_here:
+            ex["sweeps_under_debug_logging"] = ex.get("sweeps_under_debug_logging", 0) + 1
         if op["family"] == "nesting":
             sv = self._scaling(host, model, op, data)  # before the sweep: a super-linear parser would starve it
             if sv:
@@ -355,7 +365,10 @@ class Corrupt(Machine):
             tracemalloc.start()
         host.op_index += 1
         try:
-            with Seams(host.disk, host.entropy, host.clock, host.fast_stack, False, host.rare):
+            import contextlib
+
+            with Seams(host.disk, host.entropy, host.clock, host.fast_stack, False, host.rare), \
+                    (host.with_cli_logging() if log_here else contextlib.nullcontext()):
                 from suit_generator.suit.envelope import SuitEnvelopeTagged
                 from suit_generator.exceptions import SUITError
                 import cbor2
